@@ -268,6 +268,32 @@ func driveC04(p *Pool, r *evid.Run) {
 	r.Add("fault_scenarios", int64(len(fan)))
 	exploreAll(p, r, "C04", fan, 0, 0)
 
+	// 400 files with notifications: callback errors and cancellation while every internal queue is full
+	var big []Scn
+	for _, pol := range []string{"send", "run", "recv", "starve"} {
+		root := Scn{Kind: "xfer", Src: "fan400", Dst: "empty", Cap: 64, Policy: pol, Notify: true}
+		for _, k := range []int{0, 1, 5, 130, 300} {
+			for _, kind := range []string{"hasher", "notify"} {
+				sc := root
+				sc.Fault = Fault{Kind: kind, K: k}
+				big = append(big, sc)
+			}
+		}
+		rr := exploreAll(p, r, "C04", []Scn{root}, 0, 0)
+		if rr[0].Info != nil {
+			steps := rr[0].Info["steps"]
+			for _, kind := range []string{"cancelR", "cancelS", "break"} {
+				for k := 0; k < steps; k += steps/12 + 1 {
+					sc := root
+					sc.Fault = Fault{Kind: kind, K: k}
+					big = append(big, sc)
+				}
+			}
+		}
+	}
+	r.Add("fault_scenarios", int64(len(big)))
+	exploreAll(p, r, "C04", big, 0, 0)
+
 	// kill points: every quiescent state (fs calls are points) of fault-free runs
 	var crash []Scn
 	for _, pol := range []string{"run", "recv", "rr"} {
